@@ -290,7 +290,18 @@ def check_inv_obj(I, st0, oid, problems, undecided):
                     if (isinstance(v, IntV) and not v.lin.t) or not maybe_written(st, oid, pos, pos + L.eb, (ent or {}).get('obj_ver', 0)):
                         problems.append(('terminator', '%s: no NUL known at index m_size = %r of the in-object array' % (where, sl)))
                     else:
-                        undecided.append('%s: the unit at index m_size = %r of the in-object array was written with a value not decided to be NUL' % (where, sl))
+                        # the position was written on this path: with what?  A value that is a function of the inputs alone (e.g. a
+                        # unit of another object's in-object array as the operation found it) and can be non-zero is a finding
+                        env = None
+                        if isinstance(v, IntV):
+                            vu = I.as_u(st, v)
+                            if vu is not None:
+                                env = st.find_model([vu], lambda x: x[0] != 0)
+                        if env is not None:
+                            problems.append(('terminator', '%s: the unit at index m_size = %r of the in-object array was written with a value that need not be '
+                                             'NUL; witness %s' % (where, sl, fmt_env(env))))
+                        else:
+                            undecided.append('%s: the unit at index m_size = %r of the in-object array was written with a value not decided to be NUL' % (where, sl))
         else:
             h = st.objs.get(chars.obj)
             if h is None or h.kind != 'heap':
